@@ -60,6 +60,9 @@ func checks() []check {
 		{ID: "C15", Level: "model_checking", Parts: []part{
 			{Name: "bandwidth", Pkg: "pkg/k8s", Run: "^TestVerifC15Bandwidth$"},
 		}},
+		{ID: "C18", Level: "model_checking", Parts: []part{
+			{Name: "admission", Pkg: "pkg/controller/webhook", Run: "^TestVerifC18$"},
+		}},
 		{ID: "C20", Level: "model_checking", Parts: []part{
 			{Name: "config-merge", Pkg: "types/daemon", Run: "^TestVerifC20Merge$"},
 			{Name: "cni-chain", Pkg: "cmd/terway-cli", Run: "^TestVerifC20Chain$", Netns: true, Patch: [][3]string{{"cmd/terway-cli/node.go", "const nodeCapabilitiesFile =", "var nodeCapabilitiesFile ="}}},
